@@ -224,7 +224,8 @@ PROPS = {
                      "handler and provider + read-back oracle on the implementation",
     },
     "C14": {
-        "cmd": "c14", "seed": 114, "gentie": 0, "corr": ["Batch"], "coq_dirs": ["Batch", "Corr/Batch", "GenTie/Provider", "Props/C14"],
+        "cmd": "c14", "seed": 114, "gentie": 0, "corr": ["Batch", "FilesOfBytes"],
+        "gens": [{"name": "gen_files", "pkg": "./cmd/gen_files"}], "coq_dirs": ["Batch", "Corr/Batch", "GenTie/Provider", "Props/C14"],
         "rule": "valid file sets written by the real handler, then 0-3 count-consistent mutations out of ~140 (drop/duplicate/null/swap/"
                 "empty entries of every list, missing/dangling/superfluous/ill-typed references, operations null/ill-typed, transport: "
                 "uncompressed, padded beyond raw or decompressed limit and exactly at it, flipped bytes, read failure, over-long and "
@@ -308,7 +309,7 @@ PROPS = {
                      "vm_compute correspondence of validator and engine models against the real code in crash-isolated child processes",
     },
     "C19": {
-        "seed": 119, "gentie": 0, "corr": ["Transformer"], "coq_dirs": ["Doc", "Json", "Corr/Transformer", "Props/C19"],
+        "cmd": "c19", "seed": 119, "gentie": 0, "corr": ["Transformer"], "coq_dirs": ["Doc", "Json", "Corr/Transformer", "Props/C19"],
         "gens": [{"name": "gen_transformer", "pkg": "./cmd/gen_transformer"}],
         "rule": "internal documents with 0-6 keys over every key type x purpose sets x JWK/base58/multibase material (incl. messy "
                 "ill-typed ones), services with extra members and endpoint shapes, alsoKnownAs; resolution models with and without "
@@ -421,6 +422,14 @@ _ADD = {
     "C06": " With additional operations (Resolve/VersionAdditional.v): the resolution option is exactly a merge into the stores "
            "(every option, full outcome); supplying history through the option equals having it stored (incl. the returned id lists); "
            "version time = truncation and version id = prefix of the MERGED sorted history; later additions cannot change the past.",
+    "C14": " From the file BYTES (Batch/FilesOfBytes.v): the five batch files are decoded INSIDE Coq from their decompressed bytes "
+           "(model of encoding/json for the file structs, incl. slice backing-array reuse, merging of duplicate members, pointer vs "
+           "struct fields, case folding) and the anchor string is parsed from its text; the safety theorems (distinct suffixes, count = "
+           "anchor count, size / decompression / URI limits, proof-reference discipline, bad file => the transaction fails) are "
+           "restated for get_txn_operations on bytes; tied to the real decoders and provider by gen_files (value- and text-level "
+           "mutations of real file sets, arbitrary bytes). gzip and the CAS remain facts.",
+    "C13": " The per-file round trip is proved at byte level (Batch/FilesOfBytesProofs.v): decoding the canonical JSON text of a file "
+           "struct returns it, and every file the real handler writes is checked to be the canonical text of its decoded struct.",
     "C12": " At resolve level, without the 'follows' hypothesis: NoDup of the commitments revealed by the applied recover/deactivate "
            "operations and by the applied updates; each applied operation reveals the commitment in force, which was not consumed "
            "before, and does not re-commit to it or to a consumed one.",
